@@ -152,6 +152,25 @@ def manysess_scenario(rng, idx, n=200):
     return {"id": "manysess%d" % idx, "sids": sids, "pkts": pk}
 
 
+def reuse_scenario(rng, idx):
+    """a session left waiting for its continuation while other sessions of the connection finish and their ids are used again"""
+    pk = []
+    a, b = rng.sample(range(4), 2)
+    ty = rng.randint(1, 3)
+    P = lambda sid, seq, ops: {"sid": sid, "seq": seq, "ty": ty, "min": 0, "fl": rng.choice([0, 1, 4, 5]), "rd": "ok", "ops": ops, "bv": 0}
+    pk.append(P(a, 1, ["next", "reply"]))
+    for _ in range(rng.randint(1, 3)):
+        pk.append(P(b, 1, ["reply"]))                    # completes; the id is free again
+    if rng.random() < 0.5:
+        pk.append(P(b, 1, ["next", "reply"]))
+        pk.append(P(b, 3, ["reply"]))
+        pk.append(P(b, 1, ["reply"]))
+    pk.append(P(a, 3, ["reply"]))                        # the waiting session goes on with its continuation, and completes
+    pk.append(P(a, 1, ["reply"]))
+    pk.append({"sid": 0, "seq": 0, "ty": 0, "min": 0, "fl": 0, "rd": "eof", "ops": []})
+    return {"id": "reuse%d" % idx, "pkts": pk}
+
+
 def scripts_to_scenarios(scripts, prefix):
     return [{"id": "%s%d" % (prefix, i), "pkts": s} for i, s in enumerate(scripts)]
 
@@ -183,6 +202,7 @@ def collect(ctx, prop):
     for s in scen:
         if rng.random() < 0.12:
             s["sids"] = rng.sample([0, 1, 0x80000000, 0xffffffff, 0x00000100, 0x7fffffff], 4)
+    scen += [reuse_scenario(rng, i) for i in range(40 if quick else 600)]
     if prop in ("C08", "C07", "C20"):
         scen += [manysess_scenario(rng, i, 200 if i % 2 == 0 else 140) for i in range(6 if quick else 60)]
     byid = {s["id"]: s for s in scen}
